@@ -711,7 +711,8 @@ def gen_upgrade_pipeline(rng: random.Random) -> List[Parts]:
     Upgrade: ...), each followed by ordinary pipelined requests.  What an offer means for the rest of the stream
     depends on whether the server accepts it; the reference has a reading for either case."""
     k = rng.choice([3, 3, 4, 4, 5, 6])
-    offers = set(rng.sample(range(k - 1), rng.choice([1, 2, 2, 3][: max(1, k - 2)]) if k > 2 else 1))
+    # offers at any position: first, in the middle (followers pipelined behind them) and last (nothing behind)
+    offers = set(rng.sample(range(k), rng.choice([1, 2, 2, 3])))
     msgs: List[Parts] = []
     for i in range(k):
         if i in offers:
@@ -775,7 +776,8 @@ def gen_coded_stream(rng: random.Random, mode: str) -> Tuple[List[Parts], List[b
         words = [b"alpha ", b"beta ", b"gamma\n", b"\x00\x01", b"0123456789", b"\r\n"]
         text = b"".join(rng.choice(words) for _ in range(n))[:n]
         coded = comp(text)
-        hs = [(b"Content-Encoding", rng.choice([token, token.upper() if rng.random() < 0.2 else token]))]
+        # (token case is left alone: an upper-case coding name is a body-decoding matter, C09, not a framing one)
+        hs = [(b"Content-Encoding", token)]
         chunks = None
         body = None
         if rng.random() < 0.6:
